@@ -319,11 +319,9 @@ fn state_search(rep: &mut Report, tier: Tier, property: &str) {
     }
 }
 
+/// (std's SipHash and a hasher that is sensitive to the sequence of `Hasher` calls)
 fn std_hash<T: std::hash::Hash>(t: &T) -> u64 {
-    use std::hash::Hasher;
-    let mut h = std::collections::hash_map::DefaultHasher::new();
-    t.hash(&mut h);
-    h.finish()
+    bridge::both_hashes(t)
 }
 
 /// C14 laws over all pairs and triples of a closed universe of small values.
